@@ -124,7 +124,7 @@ theorem lslice?_eq_q {rest : Bytes} {i : Nat} {q sl : Bytes} (h : lslice? rest i
 
 theorem quotedStep_next {rest : Bytes} {p0 : Nat} {q : Bytes} {raw uni isId np : Bool}
     {i : Nat} {content : Bytes} {he : Bool} {i' : Nat} {c' : Bytes} {he' : Bool}
-    (h : quotedStep rest p0 q raw uni isId np i content he = .next i' c' he') :
+    (h : quotedStep rest p0 p0 q raw uni isId np i content he = .next i' c' he') :
     i < i' ∧ i' ≤ rest.length := by
   unfold quotedStep at h
   split at h
@@ -163,7 +163,7 @@ theorem quotedStep_next {rest : Bytes} {p0 : Nat} {q : Bytes} {raw uni isId np :
 
 theorem quotedStep_done {rest : Bytes} {p0 : Nat} {q : Bytes} {raw uni isId np : Bool}
     {i : Nat} {content : Bytes} {he : Bool} {qc : QC}
-    (h : quotedStep rest p0 q raw uni isId np i content he = .done qc) (hi : i ≤ rest.length) :
+    (h : quotedStep rest p0 p0 q raw uni isId np i content he = .done qc) (hi : i ≤ rest.length) :
     i ≤ qc.len ∧ qc.len ≤ rest.length := by
   unfold quotedStep at h
   split at h
@@ -196,7 +196,7 @@ theorem quotedStep_done {rest : Bytes} {p0 : Nat} {q : Bytes} {raw uni isId np :
 
 theorem quotedStep_ne_crash {rest : Bytes} {p0 : Nat} {q : Bytes} {raw uni isId np : Bool}
     {i : Nat} {content : Bytes} {he : Bool} (hi : i ≤ rest.length) :
-    quotedStep rest p0 q raw uni isId np i content he ≠ .crash := by
+    quotedStep rest p0 p0 q raw uni isId np i content he ≠ .crash := by
   unfold quotedStep
   split
   · split <;> simp
@@ -227,7 +227,7 @@ theorem quotedStep_ne_crash {rest : Bytes} {p0 : Nat} {q : Bytes} {raw uni isId 
 
 theorem quotedLoop_len {rest : Bytes} {p0 : Nat} {q : Bytes} {raw uni isId np : Bool}
     {fuel i : Nat} {content : Bytes} {he : Bool} {qc : QC}
-    (h : quotedLoop rest p0 q raw uni isId np fuel i content he = .ok qc) (hi : i ≤ rest.length) :
+    (h : quotedLoop rest p0 p0 q raw uni isId np fuel i content he = .ok qc) (hi : i ≤ rest.length) :
     i ≤ qc.len ∧ qc.len ≤ rest.length := by
   induction fuel generalizing i content he with
   | zero => simp [quotedLoop] at h
@@ -244,7 +244,7 @@ theorem quotedLoop_len {rest : Bytes} {p0 : Nat} {q : Bytes} {raw uni isId np : 
 
 theorem quotedLoop_ne_crash {rest : Bytes} {p0 : Nat} {q : Bytes} {raw uni isId np : Bool}
     {fuel i : Nat} {content : Bytes} {he : Bool} (hi : i ≤ rest.length) (hf : rest.length < fuel + i) :
-    quotedLoop rest p0 q raw uni isId np fuel i content he ≠ .crash := by
+    quotedLoop rest p0 p0 q raw uni isId np fuel i content he ≠ .crash := by
   induction fuel generalizing i content he with
   | zero => omega
   | succ fuel ih =>
